@@ -14,7 +14,7 @@ GATES = {
               'layout:indented-comment': 2000, 'layout:blank-separated': 500, 'layout:mixed-class-adjacent': 300, 'layout:file-start': 500,
               'layout:file-end': 300, 'layout:after-last-meta-no-postings': 40, 'layout:before-dedent': 300, 'layout:nested-posting-meta': 100,
               'history_steps': 6000, 'handover_claims': 1500, 'manual_claims_judged': 2500, 'restore_checks': 800, 'idempotence_checks': 2500, 'parse_vs_later_checks': 2500,
-              'parse_vs_later_on_copy': 1000, 'restore_interleaving:explicit-list': 300, 'histories_continued_on_copy': 150},
+              'parse_vs_later_on_copy': 1000, 'multi_comment_handovers': 60, 'restore_interleaving:explicit-list': 300, 'histories_continued_on_copy': 150},
     'thorough': {'evaluations': 500000, 'layout:after-last-meta-no-postings': 800},
 }
 RULE = ('case = one document from the comment-layout generator (comment runs, matching or mismatching indentation, adjacent above / below / '
@@ -226,6 +226,10 @@ def run_case(col, r, idx):
         log = []
         handover = {}
         pp = ops.pingpong_ops(root, r, r.randint(6, 14)) if idx % 3 == 2 else []
+        if not pp and idx % 7 == 3:
+            pp = ops.multi_comment_ops(root, r)       # two or three separate comment tokens in one gap, handed from list to list
+            if pp:
+                col.count('multi_comment_handovers')
         pp.reverse()
         swap_at = r.randint(1, 8) if not pp and idx % 4 == 1 else -1
         for s in range(max(r.randint(5, 15), len(pp))):
